@@ -305,7 +305,7 @@ def main(tier, seed):
                      "ties count as accounted (the statement says higher or equal)"],
         required_stats=("schedule_calls", "calls_with_unplaced", "calls_with_ties",
                         "calls_with_a_partially_executed_task"),
-        chunk=4, budget_s=280 if tier == "quick" else 3000, confirm_job=confirm_job)
+        chunk=4, budget_s=280 if tier == "quick" else 900, confirm_job=confirm_job)
 
 
 def replay(path):
